@@ -27,8 +27,9 @@ CHECKS = {
     "C16": dict(
         text="Proof (partial, with refutations) over the same L2 model: the provenance of baked factors / initial energy "
              "depends on the table list and index only through the per-wall resolution (overwritten tables and setter "
-             "order vanish); bake, exchange(recalculate) and set_air_attenuation are idempotent (Leibniz equality of the "
-             "state); final-configuration theorem over ALL histories: two states (or two arbitrary histories from a fresh "
+             "order vanish); bake, init_source_energy (also when it installs defaults), exchange(recalculate) and "
+             "set_air_attenuation are idempotent (Leibniz equality of the state), and so is the whole tail bake; "
+             "init_source; exchange when materials and attenuation were set; final-configuration theorem over ALL histories: two states (or two arbitrary histories from a fresh "
              "object) that agree on the configuration fields answer bake; init_source; exchange(recalculate) with the same "
              "classes up to the first failure and, on success, the same provenance of every receiver collection -- no "
              "cached field of either state enters (C16_final_config_history_independent). Refuted with witnesses (known findings): default-BRDF install by init_source_energy changes a "
@@ -54,11 +55,17 @@ CHECKS = {
         text="Proof (partial): invisible pairs have exactly zero stored / full / baked factors; A_i ff_full i j = "
              "A_j ff_full j i for the area-ratio rule (field); the Stokes double Boole sum is symmetric in the two "
              "patches and A_i stokes(i->j) = A_j stokes(j->i); stokes >= 0; Boole's rule is exact for polynomials of "
-             "degree <= 5; cut-off inactive => stokes = stokes_nocut; translation invariance. NOT carried: F <= 1, the "
-             "2.5% closure, accuracy / bounds / rotation invariance of the Nusselt branch (the branch is modelled; translation and scaling invariance are proved; the 1e-3 m segment cut-off that broke similarity "
-             "was repaired by fix cfd1b2b). The composed end-to-end model computes its whole form-factor matrix itself "
-             "(C05_room_form_factors_computed).",
-        note=TRUST + "ln/sqrt/abs abstract; np.linalg.inv of the Nusselt branch is modelled by the Lagrange closed form; accuracy is C06 (not claimed).",
+             "degree <= 5; the code's cut-off 0 (after fix cfd1b2b) = the cut-off-free sum for ALL patches; the Stokes kernel "
+             "is invariant under translations, rigid motions x -> Mx+t (M^T M = I), uniform scalings (ln(xy) = ln x + ln y, "
+             "sqrt laws, closed-polygon telescoping) and the 48 signed axis permutations (for every cut-off). The Nusselt "
+             "branch is an executable model too (Model/Nusselt.v, correspondence at 1e-9 on touching pairs and on whole "
+             "rooms with NO form-factor value taken from /repo): translation and uniform-scaling invariance, the sample "
+             "grid of a rectangle, assembly (invisible pairs zero, reciprocity by area ratio) for the fully computed "
+             "matrix; the composed end-to-end model (Model/Full.v) computes its whole form-factor matrix itself "
+             "(C05_room_form_factors_computed). NOT carried: F <= 1, the 2.5% closure (quadrature accuracy), rotation "
+             "invariance and bounds of the Nusselt branch.",
+        note=TRUST + "ln/sqrt/abs abstract (LnLaws/SqrtLaws instantiated over R); np.linalg.inv of the 3x3 Vandermonde "
+             "matrix is modelled by its closed form (compared numerically); accuracy is C06 (not claimed).",
         technique="Coq proof over ordered field + extracted-model correspondence", ref="5/C05"),
     "C09": dict(
         text="Proof: Green-function argument in any commutative ring: first-leg recursion = last-leg recursion, hence the "
@@ -102,9 +109,11 @@ CHECKS = {
              "exact rational segment/polygon oracle. For the composed end-to-end model: the patch surfaces of a room "
              "with axis-aligned rectangular walls are axis-aligned rectangles (derived from the tiling theorems), and "
              "for centroids in general position two patches exchange energy iff no patch rectangle blocks the segment "
-             "between their centroids (C07_room_visibility_geometric).",
+             "between their centroids (C07_room_visibility_geometric); a patch never exchanges energy with a patch "
+             "behind it or in its own plane (C07_room_behind_hidden, C07_room_coplanar_hidden).",
         note=TRUST + "Winding-number correctness for non-rectangular or rotated surfaces is validated by differential "
-             "testing only. General position of the centroids of a given room is a hypothesis of the room theorem.",
+             "testing only. General position of the centroids with respect to the other patches' rectangles is a "
+             "hypothesis of the room theorem.",
         technique="Coq proof over ordered field + extracted-model correspondence + exact-rational oracle", ref="5/C07"),
     "C19": dict(
         text="Proof: the Kang list model's order-(k+1) histogram is the stated sum over the patches of all other walls "
@@ -146,7 +155,8 @@ CHECKS = {
              "pair (receiving wall's incoming sample) and receiver. Correspondence of _rotate_coords_to_normal, "
              "set_wall_brdf, get_scattering_data_* and baked scenes with direction-dependent tables.",
         note=TRUST + "pyfar's rotation machinery is a black box compared at 1e-12 absolute; completeness "
-             "rot(rotT v) = v is not proved.",
+             "rot(rotT v) = v IS proved (C14_frame_complete), so the lookup of any direction is the lookup of its "
+             "wall-frame coordinates.",
         technique="Coq proof over commutative ring / ordered ring + extracted-model correspondence", ref="5/C14"),
     "C18": dict(
         text="Proof (partial, with refutations): Consistent s -> construct s = Ok for the model of __init__ conversions + "
